@@ -65,6 +65,51 @@ def _body(fn):
     return b
 
 
+def _inlined(cls, fn, depth=0):
+    """body of `fn` with every statement `self._helper()` (no arguments, private method of the same class, no return
+    value used) replaced by that helper's body - "extract method" undone.  Nested one more level at most."""
+    out = []
+    for st in _body(fn):
+        if isinstance(st, ast.Expr) and isinstance(st.value, ast.Call) and not st.value.args and not st.value.keywords \
+                and isinstance(st.value.func, ast.Attribute) and isinstance(st.value.func.value, ast.Name) \
+                and st.value.func.value.id == "self" and st.value.func.attr.startswith("_") and depth < 2:
+            helper = next((n for n in cls.body if isinstance(n, ast.FunctionDef) and n.name == st.value.func.attr), None)
+            if helper is not None and [a.arg for a in helper.args.args] == ["self"] and not helper.decorator_list:
+                out.extend(_inlined(cls, helper, depth + 1))
+                continue
+        out.append(st)
+    return out
+
+
+def _chain(stmts, where):
+    """normal form of a decision chain: [(test, body)] + final else body.  Accepts `if/elif/.../else` as well as guard
+    clauses (`if c: …; return` one after the other, the rest being the else part).  A guard without `return` that is
+    followed by more statements would fall through - refused."""
+    branches = []
+    i = 0
+    while i < len(stmts):
+        st = stmts[i]
+        if not isinstance(st, ast.If):
+            break
+        if st.orelse:
+            node = st
+            while True:
+                branches.append((node.test, list(node.body)))
+                if len(node.orelse) == 1 and isinstance(node.orelse[0], ast.If):
+                    node = node.orelse[0]
+                    continue
+                return branches, list(node.orelse) + stmts[i + 1:]
+        if st.body and isinstance(st.body[-1], ast.Return) and st.body[-1].value is None:
+            branches.append((st.test, list(st.body[:-1])))
+            i += 1
+            continue
+        if i == len(stmts) - 1:
+            branches.append((st.test, list(st.body)))
+            return branches, []
+        raise TranslatorError(f"{where}: a guard that neither returns nor has an else is followed by more statements")
+    return branches, stmts[i:]
+
+
 class Cond:
     """expression translator for the sweep / join / budget conditions"""
 
@@ -242,19 +287,20 @@ def translate() -> tuple[str, dict]:
     tries0 = s.circuit_timeout // s.next_hop_timeout
 
     # ---- do_remove
-    if any(isinstance(n, (ast.Return, ast.Raise)) for n in ast.walk(_fn(tc, "do_remove"))):
+    dr_body = _inlined(tc, _fn(tc, "do_remove"))
+    if any(isinstance(n, (ast.Return, ast.Raise)) for st in dr_body for n in ast.walk(st)):
         raise TranslatorError("do_remove can leave (return/raise) before all tables are swept")
-    dr = [st for st in _body(_fn(tc, "do_remove")) if isinstance(st, ast.For)]
+    dr = [st for st in dr_body if isinstance(st, ast.For)]
     if len(dr) < 3:
         raise TranslatorError("do_remove: fewer than three sweep loops")
     # single-assignment local aliases in front of the loops (e.g. `now = time.time()`, `limit = now - settings.X`)
     aliases, assigned = {}, {}
-    for st in _body(_fn(tc, "do_remove")):
+    for st in dr_body:
         if isinstance(st, ast.For):
             break
         if isinstance(st, ast.Assign) and len(st.targets) == 1 and isinstance(st.targets[0], ast.Name):
             aliases[st.targets[0].id] = st.value
-    for st in ast.walk(_fn(tc, "do_remove")):
+    for st in [n for top in dr_body for n in ast.walk(top)]:
         if isinstance(st, (ast.Assign, ast.AugAssign)):
             for t in (st.targets if isinstance(st, ast.Assign) else [st.target]):
                 if isinstance(t, ast.Name):
@@ -267,15 +313,27 @@ def translate() -> tuple[str, dict]:
     }
     # ---- should_join_circuit
     sj = [st for st in _body(_fn(tc, "should_join_circuit"))]
-    core = [st for st in sj if not (isinstance(st, ast.Expr) and "logger" in ast.unparse(st))]
+    sj_alias, sj_assigned = {}, {}
+    for st in sj:
+        if isinstance(st, ast.Assign) and len(st.targets) == 1 and isinstance(st.targets[0], ast.Name):
+            sj_alias[st.targets[0].id] = st.value
+    for st in ast.walk(_fn(tc, "should_join_circuit")):
+        if isinstance(st, (ast.Assign, ast.AugAssign)):
+            for t in (st.targets if isinstance(st, ast.Assign) else [st.target]):
+                if isinstance(t, ast.Name):
+                    sj_assigned[t.id] = sj_assigned.get(t.id, 0) + 1
+    sj_alias = {k: v for k, v in sj_alias.items() if sj_assigned.get(k) == 1}
+    core = [st for st in sj if not (isinstance(st, ast.Expr) and "logger" in ast.unparse(st))
+            and not (isinstance(st, ast.Assign) and len(st.targets) == 1 and isinstance(st.targets[0], ast.Name)
+                     and st.targets[0].id in sj_alias)]
     if len(core) == 2 and isinstance(core[0], ast.If) and ast.unparse(core[0].body[-1]) == "return False" \
             and not core[0].orelse and ast.unparse(core[1]) == "return True":
-        join_refused = Cond(None, False).boolean(core[0].test)
+        join_refused = Cond(None, False, sj_alias).boolean(core[0].test)
     elif len(core) == 2 and isinstance(core[0], ast.If) and ast.unparse(core[0].body[-1]) == "return True" \
             and not core[0].orelse and ast.unparse(core[1]) == "return False":
-        join_refused = "(!" + Cond(None, False).boolean(core[0].test) + ")"
+        join_refused = "(!" + Cond(None, False, sj_alias).boolean(core[0].test) + ")"
     elif len(core) == 1 and isinstance(core[0], ast.Return) and core[0].value is not None:
-        join_refused = "(!" + Cond(None, False).boolean(core[0].value) + ")"
+        join_refused = "(!" + Cond(None, False, sj_alias).boolean(core[0].value) + ")"
     else:
         raise TranslatorError("should_join_circuit: unexpected shape")
     # ---- relay_cell budget and RelayRoute initial count
@@ -338,9 +396,10 @@ def translate() -> tuple[str, dict]:
         raise TranslatorError("remove_exit_socket: no `await <popped>.close()` for the popped exit socket")
     # ---- on_destroy: the branch table (guard kind, removals with "destroy passed on" flag)
     od = _body(_fn(tc, "on_destroy"))
-    chain = [st for st in od if isinstance(st, ast.If)]
-    if len(chain) != 1:
-        raise TranslatorError("on_destroy: expected exactly one if/elif chain")
+    first_if = next((k for k, st in enumerate(od) if isinstance(st, ast.If)), None)
+    if first_if is None:
+        raise TranslatorError("on_destroy: no decision chain")
+    od_branches, od_else = _chain(od[first_if:], "on_destroy")
     src_od = ast.unparse(_fn(tc, "on_destroy"))
     for need in ("next_relay = self.relay_from_to.get(circuit_id)",
                  "prev_relay = self.relay_from_to.get(next_relay.circuit_id) if next_relay else None",
@@ -351,14 +410,20 @@ def translate() -> tuple[str, dict]:
               "circuit_id in self.exit_sockets and peer == self.exit_sockets[circuit_id].hop.peer": "exit",
               "circuit_id in self.circuits and peer == self.circuits[circuit_id].hop.peer": "circuit"}
     removers = {"self.remove_circuit": 0, "self.remove_relay": 1, "self.remove_exit_socket": 2}
+
+    def _is_removal(x):
+        return any(isinstance(n, ast.Call) and ast.unparse(n.func) in removers for n in ast.walk(x))
+    # nothing in front of the chain may remove anything or leave the function
+    for st in od[:first_if]:
+        if _is_removal(st) or any(isinstance(n, (ast.Return, ast.Raise)) for n in ast.walk(st)):
+            raise TranslatorError("on_destroy: removal / return in front of the decision chain")
     destroy_branches = []
-    node = chain[0]
-    while True:
-        g = guards.get(ast.unparse(node.test))
+    for test, body in od_branches:
+        g = guards.get(ast.unparse(test))
         if g is None:
-            raise TranslatorError(f"on_destroy: unsupported guard `{ast.unparse(node.test)[:90]}`")
+            raise TranslatorError(f"on_destroy: unsupported guard `{ast.unparse(test)[:90]}`")
         acts = []
-        for st in node.body:
+        for st in body:
             if not (isinstance(st, ast.Expr) and isinstance(st.value, ast.Call)
                     and ast.unparse(st.value.func) in removers):
                 raise TranslatorError(f"on_destroy/{g}: statement is not a removal: {ast.unparse(st)[:80]}")
@@ -378,15 +443,8 @@ def translate() -> tuple[str, dict]:
                     raise TranslatorError(f"on_destroy/{g}: unsupported keyword {kw.arg}={ast.unparse(kw.value)}")
             acts.append((removers[ast.unparse(call.func)], paired, fwd))
         destroy_branches.append((g, acts))
-        if not node.orelse:
-            break
-        if len(node.orelse) == 1 and isinstance(node.orelse[0], ast.If):
-            node = node.orelse[0]
-        else:
-            if any(isinstance(x, ast.Expr) and isinstance(x.value, ast.Call)
-                   and ast.unparse(x.value.func) in removers for x in node.orelse):
-                raise TranslatorError("on_destroy: the final else removes something")
-            break
+    if any(_is_removal(x) for x in od_else):
+        raise TranslatorError("on_destroy: the final else removes something")
 
     # ---- every place that refreshes / writes the liveness clocks, in the five anchored files
     beat_sites, clock_writes = [], []
